@@ -10,6 +10,7 @@ driver can evaluate them on every environment / document the harness sends).
 * `nodupKeys`    : a JSON document has no repeated key in any object (what `json.loads` produces).
 * `FieldDef.optional` : the field may be left out of a document (nullable, or carries a default).
 * `noCatchAllTrees` : no enumerated-subtypes root of the environment is declared with a catch-all (`*`).
+* `noDefaultedTrees`, `visibleTagsPublic` : the two other hypotheses of `decode_sound_partial`.
 -/
 namespace StoneVerif.Rt
 
@@ -48,5 +49,20 @@ def FieldDef.optional (env : Env) (f : FieldDef) : Bool :=
 /-- no enumerated-subtypes root is a catch-all (lenient decoding of an unknown subtype is then refused) -/
 def noCatchAllTrees (env : Env) : Bool :=
   env.structs.all fun s => !(s.subtypes.isSome && s.catchAll)
+
+/-- no struct field whose validator is a (non-nullable) `bv.StructTree` has an implicit default, i.e. every
+enumerated-subtypes root used as a field type has at least one required field (otherwise the decoder fills an
+absent member with an instance of the root class itself, which is not a value of any leaf) -/
+def noDefaultedTrees (env : Env) : Bool :=
+  env.structs.all fun s => s.allAttrs.all fun f => match f.ty with
+    | .tree fl _ => fl.nullable || !hasDefault env f.ty
+    | _ => true
+
+/-- every union tag the caller can see is a public one (true of the caller without permissions; `validB` is the
+validity of the permission-less view) -/
+def visibleTagsPublic (env : Env) (perms : List String) : Bool :=
+  env.unions.all fun u => (u.levels.flatMap (·.tags)).all fun t => match t.omitted with
+    | none => true
+    | some c => !perms.contains c
 
 end StoneVerif.Rt
